@@ -155,12 +155,34 @@ PROPS.update({
         assumptions=ASSUME_EXACT[:1] + ["the grammar is the one in the property statement; the reference recogniser is independent code"]),
 })
 
+PROPS.update({
+    "C08": dict(
+        custom="c08", cfgs=ALL8,
+        rule="every member of BYTES (strings over byte classes below '0', digits, just above '9', high bytes; fillers with one foreign byte) is passed as integer and fraction with 8 exponent classes to the real parse_float for f32 and f64 in four build variants: optimised, debug assertions (which enable core's UB-precondition checks and the crate's own debug_asserts), AddressSanitizer, and Miri with Tree Borrows. Outcomes value / unwinding panic are both acceptable; an engine that ends any other way is the violation. Vector histories at capacity and call histories also run under Miri.",
+        exhaustive_over={"quick": "BYTES(3)^2 (585^2 pairs) x 8 exponents + fillers to 10^4 bytes in release and dbg x 8 configurations and ASan x 4; under Miri: BYTES(1)^2 x 3 exponents + short fillers in D (debug and release), A, C; vector histories depth 2; call-history pairs",
+                         "thorough": "Miri: BYTES(2)^2 in D, A, C, NC, debug and release"},
+        assumptions=["an overflow that stays inside the StackVec object is invisible to ASan and Miri; it is covered by the dbg build's assertions and by C13's step-by-step comparison at capacity",
+                     "Miri is run with Tree Borrows (Stacked Borrows flags StackVec::push_unchecked for a within-buffer access; see DESIGN.md observation O1)"]),
+})
+
+PROPS.update({
+    "C16": dict(
+        custom="c16", cfgs=FIVE,
+        rule="a base alphabet of ~250 inputs covering every path class is parsed (1) through every iterator shape (Chain split at every position, Filter with separators in every 1-3-periodic pattern, Skip/Take, SkipWhile/TakeWhile, Rev, wrapped VecDeque, LinkedList, Flatten, a deep-cloning iterator with size_hint (0,None)) and at every alignment offset on heap and stack; (2) after every ordered pair / triple of earlier calls with the stack painted 0x00/0xFF/0xA5; (3) under loom in every call-level interleaving of 2x2, 3x1 and 2x3 callers; (4) from 16 free-running threads and under Miri's race detector. Every result must equal the slice-iterator result computed on a fresh thread.",
+        exhaustive_over={"quick": "shapes x ~250 inputs x 2 formats; all ordered pairs over the alphabet + 21^3 triples x 3 paints; loom: all interleavings (6225 executions for 3x1, all 20 publication orders for 2x3); Miri with 2 schedule seeds",
+                         "thorough": "45^3 triples, loom also in compact and alloc builds, 8 Miri seeds, 40 rounds of free-running threads"},
+        assumptions=["intra-call interleavings are covered by independence (calls share no writable memory), a premise checked by the race detector and free-running threads rather than enumerated",
+                     "the x87 control-word path (fpu.rs) is compiled out on x86_64"]),
+})
+
 NOT_APPLICABLE = {}
 
 _VALUE_NOTE = ("trusted: the exact oracle in harness/core (naturals with multiply/shift/compare only), rustc, the host FPU for the crate's own fast path; "
                "bounded: f64 midpoints outside the pattern set, significands outside SEAM/HARD per exponent, digit strings beyond 10^6 are not enumerated")
 
 MANIFEST_TEXT = {
+    "C16": dict(level="Purity explored along each quantifier: iterator shapes and addresses (complete split positions), call histories (all ordered pairs/triples of an alphabet covering every path class, with poisoned stack), schedules (loom, exhaustive at call granularity), and the independence premise (race detector, free-running threads).", design_ref="DESIGN.md 4/C16", note="loom controls only the scheduling points the harness inserts between calls; histories are depth 2-3", technique="exhaustive call-level schedule exploration (loom) + bounded-exhaustive history and iterator-shape enumeration on the real code", engine="mlx + loomc16 (loom 0.7) + Miri"),
+    "C08": dict(level="The byte-class family is enumerated completely up to length 3 per part and executed under four UB monitors; the verdict is that no execution ends other than by a value or a clean unwinding panic.", design_ref="DESIGN.md 4/C08", note="monitors: debug assertions + core UB checks, ASan, Miri (Tree Borrows); byte strings beyond the family are not explored", technique="bounded-exhaustive enumeration of byte strings on the real code under UB monitors (debug-assertion build, ASan, Miri)", engine="mlx (+ nightly ASan and Miri builds of the same engine)"),
     "C19": dict(level="Every short byte string over an 11-byte alphabet that contains each syntactic role, plus special-literal and structured products, through all seven copies compiled from the repository; reference grammar + exact oracle.", design_ref="DESIGN.md 4/C19", note="strings longer than 6 (7) bytes only through the structured product", technique="bounded-exhaustive string enumeration on the real front-end copies against a reference recogniser + exact oracle"),
     "C11": dict(level="The stage is driven directly through its public entry point on a structured and a number-theoretic (w,q,flag) family in both implementations; every definite answer is verified exactly, including the interval condition for truncated significands.", design_ref="DESIGN.md 4/C11", note="w outside the structured/HARD sets is not enumerated (2^64 per exponent)", technique="bounded-exhaustive enumeration of stage inputs on the real code, exact interval oracle"),
     "C12": dict(level="Each operation is compared with naturals on an operand family built to put carries, zero limbs and the capacity edge at every position; pow and shl are complete over their exponent ranges.", design_ref="DESIGN.md 4/C12", note="operand values outside the LIMBS family are not enumerated", technique="bounded-exhaustive operand enumeration against a natural-number reference model"),
